@@ -135,7 +135,17 @@ def beartype_descriptor_decorator_builtin_property(
         f'{repr(descriptor)} not builtin @property method descriptor.')
 
     # Avoid circular import dependencies.
-    from beartype._decor._nontype.decornontype import beartype_func
+    #
+    # Note that this decorator intentionally defers to the high-level
+    # beartype_object() decorator rather than the low-level beartype_func()
+    # decorator (exactly as the sibling decorator for class and static method
+    # descriptors defined below does). Only the former reduces an exception
+    # raised on decorating *ONE* of these functions to a non-fatal warning when
+    # the passed configuration requests that (e.g., as all "beartype.claw"
+    # import hooks do). Deferring to the latter instead would leave *ALL* of
+    # these functions undecorated on the first such exception -- including
+    # functions that are perfectly decoratable.
+    from beartype._decor.decorcore import beartype_object
 
     # Pure-Python unbound getter, setter, and deleter functions wrapped by this
     # descriptor if any *OR* "None" otherwise (i.e., for each such function
@@ -149,17 +159,17 @@ def beartype_descriptor_decorator_builtin_property(
     # Note that *ALL* property method descriptors wrap at least a getter
     # function (but *NOT* necessarily a setter or deleter function). This
     # function is thus guaranteed to be non-"None".
-    descriptor_getter = beartype_func(  # type: ignore[type-var]
-        func=descriptor_getter,  # pyright: ignore
+    descriptor_getter = beartype_object(  # type: ignore[type-var]
+        descriptor_getter,  # pyright: ignore
         **kwargs
     )
 
     # If this property method descriptor additionally wraps a setter and/or
     # deleter function, type-check those functions as well.
     if descriptor_setter is not None:
-        descriptor_setter = beartype_func(descriptor_setter, **kwargs)
+        descriptor_setter = beartype_object(descriptor_setter, **kwargs)
     if descriptor_deleter is not None:
-        descriptor_deleter = beartype_func(descriptor_deleter, **kwargs)
+        descriptor_deleter = beartype_object(descriptor_deleter, **kwargs)
 
     # Return a new property method descriptor decorating all of these functions,
     # implicitly destroying the prior descriptor.
